@@ -54,6 +54,12 @@ pub struct MtrlSpec {
     pub value_gap: u8,
 }
 
+/// low nibble of the dimension byte of table kind 4: every value but 3 (0x53 is the Dawntrail colour table), the
+/// range's upper end twice as likely
+pub fn opaque_dims_nibble(noise: u32) -> u32 {
+    [0u32, 1, 2, 4, 5, 6, 7, 8, 9, 10, 11, 12, 13, 14, 15, 15][(noise >> 28) as usize]
+}
+
 pub fn table_rows(table: u8) -> usize {
     match table {
         1 | 2 => 16,
@@ -92,6 +98,8 @@ pub fn encode_mtrl(m: &MtrlSpec) -> Vec<u8> {
     let dims: u32 = match m.table {
         2 => 0x42,
         3 => 0x53,
+        // any other dimension byte 0x50..=0x5F: a colour table the reader keeps opaque (no rows) and a 32-row dye table
+        4 => 0x50 | opaque_dims_nibble(m.flag_noise),
         _ => 0,
     };
     let mut flags = (m.flag_noise & 0xFFFF_F003) | (dims << 4);
@@ -108,8 +116,8 @@ pub fn encode_mtrl(m: &MtrlSpec) -> Vec<u8> {
             body.u16(*h);
         }
         if m.dye {
-            for d in m.dye_words.iter().take(rows) {
-                if m.table == 3 {
+            for d in m.dye_words.iter().take(if m.table == 4 { 32 } else { rows }) {
+                if m.table >= 3 {
                     body.u32(*d);
                 } else {
                     body.u16(*d as u16);
